@@ -46,7 +46,7 @@ theorem decG_encG (v : SSlab) (ok : OkG I v) (id : SlabID) (hid : ownId v = id â
       Â· cases he
     have hsid : (toSlab (ownId (.tree t ty)) (.tree t ty)).id = id := by
       rw [toSlab_id _ _ (Or.inl rfl)]; exact hown
-    have := C07.decode_encode (toSlab (ownId (.tree t ty)) (.tree t ty)) ok' 0
+    have := C07.decode_encode_flat (toSlab (ownId (.tree t ty)) (.tree t ty)) ok' 0
     rw [hsid] at this
     unfold decG encG
     rw [toSlabG_tree, this]
